@@ -77,6 +77,14 @@ def strategy(tier):
                                                  S.text_st(max_size=6))}),
         st.fixed_dictionaries({'op': st.just('cdisc'), 'c': ci}),
         st.fixed_dictionaries({'op': st.just('sdisc'), 'c': ci}),
+        # one polling payload: engine.io CLOSE, then more socket.io frames
+        st.fixed_dictionaries({'op': st.just('close_then'), 't': tt,
+                               'frames': st.lists(st.sampled_from([
+                                   '0', '0/a,', '0/ref,', '2["a",1]',
+                                   '21["a"]', '1', '1/a,',
+                                   '51-["a",{"_placeholder":true,"num":0}]',
+                                   '61-/a,3[{"_placeholder":true,"num":0}]']),
+                                   min_size=1, max_size=3)}),
         # asyncio: an emit with callback to a room of two; the send to the
         # first member is suspended, meanwhile the other member's transport
         # ends, then the send completes
@@ -205,6 +213,11 @@ def _generation(case, w, st_):
             continue
         if k == 'malformed':
             w.send_raw(t, op['text'])
+            continue
+        if k == 'close_then':
+            if w.t_alive[t]:
+                w.close_then(t, op['frames'])
+                flags.add('frames_after_close')
             continue
         if k == 'late':
             gone = [i for i in range(c0, len(w.clients))
@@ -411,7 +424,8 @@ def check_case(case):
         labels['nontrivial'] = bool(flags & {
             'partial_binary', 'unanswered_callback', 'fault_connect',
             'fault_event', 'fault_disconnect', 'left_personal_room',
-            'late_enter', 'late_emit_cb', 'late_session'})
+            'late_enter', 'late_emit_cb', 'late_session',
+            'frames_after_close'})
         if case.get('disc_closes_own'):
             labels['disc_closes_own'] = True
         return labels
